@@ -13,6 +13,10 @@ class Undecidable(Exception):
     pass
 
 
+class Rejected(Undecidable):
+    """the evaluated helper rejects the input (assert / raise): a definite outcome, not a lack of knowledge"""
+
+
 _CMP = {ast.Lt: operator.lt, ast.LtE: operator.le, ast.Gt: operator.gt, ast.GtE: operator.ge, ast.Eq: operator.eq, ast.NotEq: operator.ne,
         ast.In: lambda a, b: a in b, ast.NotIn: lambda a, b: a not in b, ast.Is: operator.is_, ast.IsNot: operator.is_not}
 _BIN = {ast.Add: operator.add, ast.Sub: operator.sub, ast.Mult: operator.mul, ast.Mod: operator.mod, ast.FloorDiv: operator.floordiv,
@@ -40,6 +44,8 @@ def ev(e, env):
         raise Undecidable("unbound attribute %s" % t)
     if isinstance(e, (ast.Tuple, ast.List)):
         return tuple(ev(x, env) for x in e.elts)
+    if isinstance(e, ast.Dict) and all(k is not None for k in e.keys):
+        return {ev(k, env): ev(v, env) for k, v in zip(e.keys, e.values)}
     if isinstance(e, ast.Compare):
         left = ev(e.left, env)
         for op, c in zip(e.ops, e.comparators):
@@ -97,7 +103,8 @@ def ev(e, env):
             raise Undecidable("builtin %s: %s" % (e.func.id, ex))
     if isinstance(e, ast.Call) and isinstance(e.func, ast.Name) and e.func.id in env.get("__funcs__", {}) and not e.keywords:
         # a call to another pure helper of the same module
-        sub = {"__funcs__": env["__funcs__"], "__depth__": env.get("__depth__", 0) + 1}
+        sub = dict(env.get("__globals__", {}))
+        sub.update({"__funcs__": env["__funcs__"], "__depth__": env.get("__depth__", 0) + 1, "__globals__": env.get("__globals__", {})})
         if sub["__depth__"] > 20:
             raise Undecidable("call depth")
         return call(env["__funcs__"][e.func.id], [ev(a, env) for a in e.args], sub)
@@ -123,6 +130,12 @@ def _exec(stmts, env):
             continue
         if isinstance(st, ast.Return):
             raise _Return(None if st.value is None else ev(st.value, env))
+        if isinstance(st, ast.Assert):
+            if not ev(st.test, env):
+                raise Rejected(ast.unparse(st.test))
+            continue
+        if isinstance(st, ast.Raise):
+            raise Rejected("raise")
         if isinstance(st, ast.Assign) and len(st.targets) == 1:
             v = ev(st.value, env)
             t = st.targets[0]
